@@ -8,6 +8,7 @@
   OBLIGATION c11_poly_spec
   OBLIGATION c11_overlap_poly
   OBLIGATION c11_poly_partial
+  OBLIGATION c11_pinned_upper
   OPEN c11_poly_norepeat
 -/
 import AGV.Lemmas.Cost
@@ -53,7 +54,7 @@ theorem c11_poly (c : Config) (d : Doc) : visits {} c d ≤ passes c.strict * si
   have hN := normalPass_le_size c d
   unfold visits run
   cases hs : c.strict <;> cases hmd : c.maxDirs <;>
-    simp only [passes, inlinePass, Counters.visits] <;>
+    simp only [passes, inlinePass, Counters.visits, modes_strict, modes_fast] <;>
     (repeat' split) <;> simp_all <;> omega
 
 /-- … hence inside the specification's polynomial `(size + 1) * (numFragments + 1) * passes`. -/
@@ -94,7 +95,7 @@ theorem c11_poly_partial (c : Config) (d : Doc) (hf : FlatFragments d) :
     generalize opsSels d.ops * (1 + fragsSels d.frags) = B at *
     unfold visits run
     cases hs : c.strict <;>
-      simp only [passes, inlinePass, pinned, Counters.visits] <;>
+      simp only [passes, inlinePass, pinned, Counters.visits, modes_strict, modes_fast] <;>
       (repeat' split) <;> simp_all <;> omega
   | some lim =>
     have hM := dirsPinned_flat c lim d hf
@@ -102,7 +103,7 @@ theorem c11_poly_partial (c : Config) (d : Doc) (hf : FlatFragments d) :
     generalize opsSels d.ops * (1 + fragsSels d.frags) = B at *
     unfold visits run
     cases hs : c.strict <;>
-      simp only [passes, inlinePass, pinned, Counters.visits] <;>
+      simp only [passes, inlinePass, pinned, Counters.visits, modes_strict, modes_fast] <;>
       (repeat' split) <;> simp_all <;> omega
 
 example : FlatFragments
@@ -128,5 +129,31 @@ example : ∀ a b : Nat, String.ofList (List.replicate (a + 1) 'a') = String.ofL
   intro a b h
   have := congrArg String.length h
   simpa using this
+
+/-- What IS true of the pinned walkers for every document: the recursion limit caps the fragment
+    nesting, so the visits are below `passes * size * (1 + size)^(recLimit + 2)` — a polynomial
+    only for a fixed limit, of degree `recLimit + 3` (35 with the default limit), and by
+    `c11_blowup` the exponent really grows with the limit. -/
+theorem c11_pinned_upper (c : Config) (d : Doc) :
+    visits pinned c d ≤ passes c.strict * (size d * (1 + size d) ^ (c.recLimit + 2)) := by
+  have hI := Nat.le_trans (inlinePassPinned_fan c d) (fan_walk_le c d (by omega))
+  have hD := Nat.le_trans (depthPinned_fan c d) (fan_walk_le c d (Nat.le_refl _))
+  have hN := normalPass_le_size c d
+  have hA : size d ≤ size d * (1 + size d) ^ (c.recLimit + 2) :=
+    Nat.le_mul_of_pos_right _ (Nat.pow_pos (by omega))
+  cases hmd : c.maxDirs with
+  | none =>
+    generalize size d * (1 + size d) ^ (c.recLimit + 2) = A at *
+    unfold visits run
+    cases hs : c.strict <;>
+      simp only [passes, inlinePass, pinned, Counters.visits, modes_strict, modes_fast] <;>
+      (repeat' split) <;> simp_all <;> omega
+  | some lim =>
+    have hM := Nat.le_trans (dirsPinned_fan c lim d) (fan_walk_le c d (by omega))
+    generalize size d * (1 + size d) ^ (c.recLimit + 2) = A at *
+    unfold visits run
+    cases hs : c.strict <;>
+      simp only [passes, inlinePass, pinned, Counters.visits, modes_strict, modes_fast] <;>
+      (repeat' split) <;> simp_all <;> omega
 
 end AGV.Props.C11
